@@ -38,6 +38,7 @@ def _dyadic(draw, tier):
     c["mrts_type"] = draw(st.sampled_from([None, None, "int", "np.int64", "np.float32",
                                            "np.float64"]))
     c["domain"] = "dyadic"
+    c["prime"] = draw(st.sampled_from([None, None, None, "wider", "same"]))
     return c
 
 
@@ -154,6 +155,7 @@ def run_case(case, ctx):
         return
     ctx.set_backend(case["compiled"])
     st1, st2 = ps.trains(case)
+    ps.prime(ctx, case, (st1, st2), (pyspike.spike_sync_profile, pyspike.spike_sync))
     a, b, T0, T1, m, mt, pairs, ties = _facts(case)
     kw = ps.kw(case)
     ctx.check(O.one_to_one(pairs), "oracle_pairs_not_one_to_one", "model error?")
